@@ -14,7 +14,7 @@ def params(tier):
         if aniso and nisot == 0:
             continue
         out.append(dict(nout=nout, nzone=nzone, ng=ngr, nisot=nisot, nreac=nreac, total=total, aniso=aniso))
-    return out
+    return out + user_params(tier)
 
 
 REACTIONS = ['Absorption', 'Fission']
@@ -25,6 +25,7 @@ def write_file(path, par):
     """Returns truth: {(output, zone, isotope or None, result name as stored): np.float32 array or scalar}."""
     import h5py
     truth = {}
+    local = {}
     ngr = par['ng']
 
     def arr(base, size):
@@ -54,6 +55,11 @@ def write_file(path, par):
                 for k, name in enumerate(('FLUX', 'ABSORPTION', 'PRODUCTION')):
                     tot[name] = arr(5000 * (iout + 1) + 40 * k, ngr)
                     truth[(oname, 'totaloutput', None, name)] = arr(5000 * (iout + 1) + 40 * k, ngr)
+                # optional local values of the total output
+                tot['LOCALNAME'] = np.array([b'loc_a  ', b'loc_b  '])
+                tot['LOCALVALUE'] = np.array([7.5 + iout, 8.25 + iout], dtype=np.float32)
+                local[(oname, 'loc_a')] = np.float32(7.5 + iout)
+                local[(oname, 'loc_b')] = np.float32(8.25 + iout)
             for izo, zname in enumerate(znames):
                 zgr = ogr.create_group(zname)
                 base = 1000 * (iout + 1) + 100 * (izo + 1)
@@ -79,7 +85,84 @@ def write_file(path, par):
                             truth[(oname, zname, iso, 'Diffusion')] = arr(base + 10 * (kis + 1) + 50, 2 * ngr).reshape(2, ngr)
                             inf = igr.create_group('info')
                             inf['nbAnisotropy'] = np.array([2], dtype=np.int32)
+    truth['__local__'] = local
     return truth
+
+
+def user_params(tier):
+    """User-value ('Simple' format) files: local values stored flat (LOCALNAME / LOCALVALUE) or as one dataset per name."""
+    out = []
+    for layout, nval, size in itertools.product(('flat', 'group'), (1, 2, 3), (1, 4)):
+        if layout == 'flat' and size != 1:
+            continue        # flat local values are scalars
+        out.append(dict(user=True, layout=layout, nval=nval, size=size))
+    return out
+
+
+def check_user_file(rep, dirname, par):
+    import h5py
+    from valjean.eponine.apollo3.hdf5_reader import Reader
+    from valjean.eponine.apollo3.hdf5_picker import Picker
+    path = os.path.join(dirname, 'ap3user.hdf')
+    if os.path.exists(path):
+        os.remove(path)
+    names = [f'value_{k}_unit' for k in range(par['nval'])]
+    truth = {}
+    with h5py.File(path, 'w') as hfi:
+        info = hfi.create_group('info')
+        info['COMMENT'] = np.array([b'synthetic'])
+        info['FORMAT'] = np.array([b'Simple'])
+        out = hfi.create_group('output')
+        if par['layout'] == 'flat':
+            out['LOCALNAME'] = np.array([(n + '   ').encode() for n in names])
+            out['LOCALVALUE'] = np.array([2.5 + k for k in range(par['nval'])], dtype=np.float32)
+            for k, name in enumerate(names):
+                truth[name] = np.float32(2.5 + k)
+        else:
+            grp = out.create_group('localvalue')
+            grp['LOCALNAME'] = np.array([(n + '  ').encode() for n in names])
+            for k, name in enumerate(names):
+                arr = (np.arange(par['size'], dtype=np.float32) * np.float32(0.25) + np.float32(10 * (k + 1))).astype(np.float32)
+                grp[name] = arr
+                truth[name] = arr if par['size'] > 1 else arr[0]
+    case = {'format': 'apollo3', 'params': par}
+    tag = f"user|{par['layout']}"
+    rep.case(nontrivial=repr(sorted(par.items())) if par['nval'] > 1 else None, outcome=('ap3-user', par['layout'], par['nval']))
+
+    def bad(clause, text):
+        rep.violate(f'C10|ap3|{clause}|{tag}', text, case, size=par['nval'])
+    try:
+        brw = Reader(path).to_browser()
+    except Exception as exc:  # pylint: disable=broad-except
+        bad(f'reader-raises|{type(exc).__name__}', f'Reader raised {exc!r}')
+        return
+    got = {}
+    for item in brw.content:
+        got.setdefault(item.get('result_name'), []).append(item)
+    for name, val in truth.items():
+        items = got.get(name, [])
+        if len(items) != 1:
+            bad('reader-missing' if not items else 'reader-duplicate', f'{name}: {len(items)} items in the browser ({sorted(map(str, got))})')
+        elif not same(np.squeeze(items[0]['results'].value), np.squeeze(val)):
+            bad('reader-value', f'{name}: read {np.asarray(items[0]["results"].value).tolist()}, stored {np.asarray(val).tolist()}')
+    if set(got) - set(truth):
+        bad('reader-extra', f'items not stored in the file: {sorted(map(str, set(got) - set(truth)))}')
+    pick = Picker(path)
+    try:
+        zone = None if par['layout'] == 'flat' else 'localvalue'
+        lnames = list(pick.local_names(output='output', zone=zone))
+        if lnames != names:
+            bad('picker-names', f'local names {lnames}, stored {names}')
+        for name, val in truth.items():
+            try:
+                dset = pick.pick_user_value(output='output', result_name=name, zone=zone)
+            except Exception as exc:  # pylint: disable=broad-except
+                bad(f'picker-raises|{type(exc).__name__}', f'pick_user_value({name}) raised {exc!r}')
+                continue
+            if not same(np.squeeze(dset.value), np.squeeze(val)):
+                bad('picker-value', f'{name}: picked {np.asarray(dset.value).tolist()}, stored {np.asarray(val).tolist()}')
+    finally:
+        pick.close()
 
 
 def same(got, exp):
@@ -88,12 +171,16 @@ def same(got, exp):
 
 
 def check_file(rep, dirname, par):
+    if par.get('user'):
+        check_user_file(rep, dirname, par)
+        return
     from valjean.eponine.apollo3.hdf5_reader import Reader
     from valjean.eponine.apollo3.hdf5_picker import Picker
     path = os.path.join(dirname, 'ap3.hdf')
     if os.path.exists(path):
         os.remove(path)
     truth = write_file(path, par)
+    local = truth.pop('__local__')
     case = {'format': 'apollo3', 'params': par}
     tag = f"nisot={par['nisot']}|aniso={par['aniso']}|total={par['total']}"
     nont = par['nout'] > 1 or par['nzone'] > 1 or par['nisot'] > 1
@@ -124,6 +211,11 @@ def check_file(rep, dirname, par):
             bad('reader-value', f'{key}: read {np.asarray(dset.value).tolist()}, stored {np.asarray(val).tolist()}')
         if np.ndim(val) >= 1 and list(dset.bins.get('groups', [])) != list(range(par['ng'])):
             bad('reader-bins', f'{key}: group bins {dset.bins}')
+    for (out, name), val in local.items():
+        key = (out, 'totaloutput', None, name)
+        items = seen.pop(key, [])
+        if len(items) != 1 or not same(items[0]['results'].value, val):
+            bad('reader-local-value', f'{key}: {[np.asarray(i["results"].value).tolist() for i in items]}, stored {val!r}')
     extra = set(seen) - set(lower)
     if extra:
         bad('reader-extra', f'items not stored in the file: {sorted(map(str, extra))[:4]}')
@@ -151,6 +243,13 @@ def check_file(rep, dirname, par):
                 if not same(rds.value, dset.value) or rds.what != dset.what or list(rds.bins) != list(dset.bins) \
                         or any(not np.array_equal(rds.bins[k], dset.bins[k]) for k in rds.bins):
                     bad('picker-vs-reader', f'{(out, zone, iso, name)}: picked {dset!r} vs loaded {rds!r}')
+        for (out, name), val in local.items():
+            try:
+                dset = pick.pick_user_value(output=out, result_name=name, zone='totaloutput')
+                if not same(dset.value, val):
+                    bad('picker-local-value', f'{(out, name)}: picked {np.asarray(dset.value).tolist()}, stored {val!r}')
+            except Exception as exc:  # pylint: disable=broad-except
+                bad(f'picker-raises|{type(exc).__name__}', f'pick_user_value({out}, {name}) raised {exc!r}')
         for out in {k[0] for k in truth}:
             for zone in {k[1] for k in truth if k[0] == out}:
                 exp_iso = sorted({k[2] for k in truth if k[:2] == (out, zone) and k[2]})
@@ -160,6 +259,8 @@ def check_file(rep, dirname, par):
                 for iso in [None] + exp_iso:
                     exp_res = sorted(k[3] for k in truth if k[:3] == (out, zone, iso))
                     got_res = sorted(pick.results(output=out, zone=zone, isotope=iso))
+                    # the listing helper also shows the bookkeeping datasets of the local values: not results, not judged
+                    got_res = [r for r in got_res if r not in ('LOCALNAME', 'LOCALVALUE', 'localvalue', 'NVAL')]
                     if got_res != exp_res:
                         bad('picker-results', f'{out}/{zone}/{iso}: results {got_res}, stored {exp_res}')
     finally:
